@@ -376,12 +376,12 @@ func (cw *codeWorld) concurrentRedeem(step int, ch *kernel.Chooser) string {
 		}
 		sides[i] = sd
 		name := fmt.Sprintf("t%d", i)
-		go func() {
+		sched.Go(name, func() {
 			if sched.Park(name, "start", nil) != "go" {
 				return
 			}
 			sd.resp = w.PostFormCtx(context.WithValue(context.Background(), pairTaskKey{}, name), "/oauth/token", sd.form, sd.creds)
-		}()
+		})
 	}
 	err := sched.Run(func(draining bool) []kernel.Event {
 		var evs []kernel.Event
@@ -395,6 +395,12 @@ func (cw *codeWorld) concurrentRedeem(step int, ch *kernel.Chooser) string {
 		cw.o.Infra = err.Error()
 	}
 	cw.o.Probe("concurrent-pairs")
+	if len(sched.StuckSeen) > 0 {
+		cw.o.Probe("requests-blocked-on-other-requests")
+	}
+	if left := sched.StuckNow(); len(left) > 0 {
+		cw.o.Infra = fmt.Sprintf("concurrent redemption: requests %v never returned", left)
+	}
 	ic.attempts += 2
 	succ := 0
 	out := fmt.Sprintf("concurrent redeem code of %s by %s and %s (%d scheduler steps):", owner, sides[0].client, sides[1].client, sched.Step)
